@@ -1,5 +1,6 @@
 import Grexv.Model.RegExp
 import Grexv.Lemmas.Lines
+import Grexv.Lemmas.Presentation
 
 /-!
 # C08 — anchor options (text level): `^` / `$` are emitted exactly by the two anchor components
@@ -64,5 +65,28 @@ theorem no_selfcheck_when_anchored (cfg : Config) (env : Env) (ws : List Str) (s
   · simp [hb] at hst
     subst hst
     exact ⟨rfl, rfl⟩
+
+/-- **C08 (the body does not depend on the anchors)** for two configurations that differ only in the anchor
+switches, every stage up to the expression obtained from the minimised automaton is identical, and
+the printer — which is never told about the anchors — prints the same body text for it.  Whenever the
+self-check does not replace that expression (in particular whenever an anchor is kept on both sides),
+the two outputs therefore differ by the anchor components alone -/
+theorem body_independent_of_anchors {c1 c2 : Config} (h : SameButAnchors c1 c2) (env : Env) (ws : List Str)
+    (st1 st2 : Stages) (h1 : regExpFrom c1 env ws = .ok st1) (h2 : regExpFrom c2 env ws = .ok st2) :
+    st1.firstAst = st2.firstAst ∧ bodyText c1 st1.firstAst = bodyText c2 st2.firstAst := by
+  obtain ⟨_, _, _, _, hast⟩ := firstAst_anchor_independent h env ws st1 st2 h1 h2
+  exact ⟨hast, by rw [hast]; exact bodyText_congr h.print _⟩
+
+/-- with an anchor kept on both sides the *final* expressions coincide too -/
+theorem final_body_same_when_anchored {c1 c2 : Config} (h : SameButAnchors c1 c2) (env : Env) (ws : List Str)
+    (st1 st2 : Stages) (h1 : regExpFrom c1 env ws = .ok st1) (h2 : regExpFrom c2 env ws = .ok st2)
+    (a1 : ¬ (c1.noStart = true ∧ c1.noEnd = true)) (a2 : ¬ (c2.noStart = true ∧ c2.noEnd = true)) :
+    bodyText c1 st1.finalAst = bodyText c2 st2.finalAst := by
+  rw [(no_selfcheck_when_anchored c1 env ws st1 a1 h1).1, (no_selfcheck_when_anchored c2 env ws st2 a2 h2).1]
+  exact (body_independent_of_anchors h env ws st1 st2 h1 h2).2
+
+/-- non-vacuity: two such configurations -/
+example : SameButAnchors { noStart := true, verb := true } { noEnd := true, verb := true } := by
+  simp [SameButAnchors]
 
 end Grexv.Props.C08
